@@ -5,7 +5,8 @@ From NV.C01 Require Import Model.
 From NV.gen Require Import Gen_C01.
 Open Scope N_scope.
 
-Definition gen_rules : rules := Rules gen_follower_ack gen_follower_commit gen_stale_ack_ignored.
+Definition gen_rules : rules :=
+  Rules gen_follower_ack gen_follower_commit gen_stale_ack_ignored gen_vote_log_ok gen_prev_ok gen_commit_pick gen_commit_term_ok.
 
 (* what the harness observes of one real node: term, voted_for, role code (0 F, 1 C, 2 L),
    commit_index, log image *)
